@@ -148,6 +148,15 @@ func ReceiveInsert(item *models.Item) error {
 		verifhook.Obs("reactor.insert.frozen", item)
 		return ErrReactorFrozen
 	case globalReactor.tokenPool <- struct{}{}:
+		// select picks at random among ready cases: give the token back if the reactor is already stopping or frozen
+		if globalReactor.ctx.Err() != nil {
+			<-globalReactor.tokenPool
+			return ErrReactorShuttingDown
+		}
+		if globalReactor.freezeCtx.Err() != nil {
+			<-globalReactor.tokenPool
+			return ErrReactorFrozen
+		}
 		verifhook.At("reactor.insert.token", item)
 		logger.Debug("received item", "item", item.GetShortID())
 		if !item.IsSeed() {
